@@ -92,6 +92,21 @@ CHECKS = {
          "Every base case (8 AGG_SIG opcodes x 23 coin amounts at every minimal-encoding length boundary x message lengths, plus a fixed second pair) is signed by the harness over its own table of what each opcode appends (parent / puzzle hash / minimal amount / coin id + the opcode's domain constant) and must be accepted by parse_spends (block and mempool visitor; no, cold, warm and foreign-warm BlsCache), run_block_generator2 and validate_clvm_and_signature; the (key, message) pairs reported by run_spendbundle and the text from make_aggsig_final_message must equal the table. Then 17 single-point tamperings per case (other signature, identity signature, message byte, key swap, amount neighbours, parent byte, puzzle hash, own / foreign domain constant altered in the constants, pair dropped / duplicated, infinity and off-curve key, neighbouring opcode) must be rejected on every path exactly when they change the signed multiset, and accepted otherwise; AGG_SIG_UNSAFE messages ending in any of the 7 constants are rejected although correctly signed (6 message shapes each). Thorough adds more message lengths and all 64 ordered opcode pairs over two spends.",
          "trusts: chia_bls::sign/aggregate as the signer (C15/C16), harness codec and SHA-256; forgeries that are not single-point edits are a cryptographic claim outside this check",
          "DESIGN.md#c05"),
+ "C12": ("E", "exploration",
+         "bounded-exhaustive input enumeration: reference trie hash for roots, exhaustive small-tree adversary plus exhaustive single-step rewrite adversary for proofs",
+         "For every subset of a 12-leaf universe built around the worst cases (pairs differing only in bit 255/254/128, 00..00, ff..ff, all 3-bit prefixes) and every ordering / duplication of the small ones, both root computations equal an independently written reference trie hash; every generated proof for 16 query items states membership correctly and verifies; and no candidate proof in three exhaustively enumerated adversary families makes validate_merkle_proof return the opposite membership against an honest root: all proof trees with <=3 (quick) / <=4 (thorough) MIDDLE nodes over a per-set alphabet on a 5-leaf universe; every single-step rewrite, prefix and trailing-byte extension of honest proofs (second-order rewrites in thorough); 250-258-level chains with every small terminator tree. 32M validations quick, 1.16G thorough.",
+         "trusts: sha2 crate (collision freedom assumed), the harness reference trie hash and proof-tree model written from the format description in tests/merkle_set.py; trailing bytes accepted by the verifier would only be counted (the property does not forbid them); adversary-chosen roots are out of scope",
+         "DESIGN.md#c12"),
+ "C19": ("E", "exploration",
+         "bounded-exhaustive input enumeration with an independent 'genuine singleton spend' predicate, differential re-execution of the rewritten spend, and fingerprint-group consistency",
+         "Fast-forward: for every constructed singleton spend (launcher ids x inner-puzzle styles x 10-13 condition sets x 3-5 amounts x lineages, plus the 2 recorded spends) and every rebase target, fast_forward_singleton succeeds exactly when the harness's own predicate says the spend is genuine; the rewritten solution changes only lineage parent, parent amount and amount, re-runs with exactly the original conditions apart from the two self-assertions (which name the new coin), is accepted by mempool validation on the new coin and creates the same coins; each of 34 single-relation corruptions is refused (87k cases quick, 1.7M thorough). Dedup: for every condition list of <=3 letters over a 66/78-letter alphabet (hint shapes, atom-boundary splits, all signature and message conditions, time locks) in 9 coin/helper scenes (165k lists quick, 2.6M thorough), eligible spends of the same coin with equal fingerprints have identical parsed conditions, and eligibility implies no signature/message condition and created >= consumed.",
+         "trusts: mc::sx codec/tree hash, the harness's own curry/uncurry and solution decoder, chia-puzzles 0.20.1 module bytes (own tree hash checked against the published hash), clvmr run_program, letter metadata assigned by construction; the Python wrapper in wheel/ is not exercised",
+         "DESIGN.md#c19"),
+ "C20": ("E", "exploration",
+         "bounded-exhaustive tape enumeration of values plus a single-node JSON corruption neighbourhood with a denotation-equality oracle, run through an embedded CPython interpreter across worker processes",
+         "Through an embedded interpreter running the real to_json_dict / from_json_dict of all 170 registered types (every type with a JSON conversion found by a source scan of /repo, none uncovered): for every value of a stated finite set per type (zero-tape value, every one-byte and integer-window tape deviation, hand-written extreme letters; thorough: a second deviation inside each newly created sub-structure) JSON -> value is the identity with equal byte encoding and hash and survives json.dumps/loads; leaf types, combinators and Coin also match the documented JSON form. For one value per JSON shape every single-node corruption of a stated list (missing key, null, 9 hex-string corruptions, 36 integer substitutions covering max+1 and min-1 of every width plus a float and a string, list element removed or added) is either rejected or accepted with exactly the stated meaning and a valid wire form. 94k values / 155k corruptions quick; 1.06M / 487k thorough.",
+         "trusts: CPython 3.11, its json module and pyo3 0.29 conversions; /repo's PartialEq, to_bytes and hash as observers; conversions called through the ToJsonDict / FromJsonDict traits (what the generated pymethods call); oracle self-tested against 11 planted wrong conversions (C20_SELFTEST=1)",
+         "DESIGN.md#c20"),
 }
 
 PENDING_REASON = "check not built yet in this round (planned: see DESIGN.md section for this property); not claimed until it runs"
